@@ -382,6 +382,11 @@ func runHist(h *hist) (*runResult, error) {
 			bad := func(key, what string) {
 				rr.viol = append(rr.viol, vh.Violation{Kind: "monitor", Key: key, What: fmt.Sprintf("op %d (%s): accepted although %s", i, j.Note, what)})
 			}
+			// (forge-payload-stale-kes is legitimately accepted in insecure mode; the KES clause below judges it)
+			if strings.HasPrefix(j.Note, "forge-") && !strings.HasPrefix(j.Note, "forge-payload-stale-kes") {
+				kind := strings.SplitN(j.Note, "/", 2)[0]
+				bad("forged-opcert-accepted-after-genuine:"+strings.TrimPrefix(kind, "forge-"), "it is a forgery that re-uses the fields of the genuine message before it with one of them replaced")
+			}
 			pe := encPayload(j)
 			if len(id0) != 32 || !bytes.Equal(id0, h256(pe)) {
 				bad("accepted-id-not-hash-of-payload", fmt.Sprintf("id %x is not blake2b-256 of the payload encoding %x", id0, pe))
@@ -553,12 +558,13 @@ type poolKey struct {
 	id   string
 	vkey []byte
 	ctr  uint64
+	ocp  uint64 // base of the op-cert KES period: the certificate for issue n is (vkey, n, ocp + n%7), always the same
 }
 
 func newPool(r *vh.Rng) *poolKey {
 	priv := ed25519.NewKeyFromSeed(r.Bytes(32))
 	pub := []byte(priv.Public().(ed25519.PublicKey))
-	return &poolKey{priv: priv, pub: pub, id: poolOf(pub), vkey: r.Bytes(32), ctr: uint64(r.Intn(5))}
+	return &poolKey{priv: priv, pub: pub, id: poolOf(pub), vkey: r.Bytes(32), ctr: uint64(r.Intn(5)), ocp: uint64(r.Intn(500))}
 }
 
 func kesSig(wrapped, vkey []byte, period uint64, pad byte) []byte {
@@ -572,7 +578,7 @@ func kesSig(wrapped, vkey []byte, period uint64, pad byte) []byte {
 
 // validMsg builds a message that satisfies every clause for pool p with the given counter
 func validMsg(r *vh.Rng, p *poolKey, issue uint64) *jmsg {
-	j := &jmsg{Issue: issue, OcKesP: uint64(r.Intn(500)), Expires: uint32(r.U64())}
+	j := &jmsg{Issue: issue, OcKesP: p.ocp + issue%7, Expires: uint32(r.U64())}
 	switch r.Intn(8) {
 	case 0:
 		j.Body = nil
@@ -723,6 +729,69 @@ func pickVia(r *vh.Rng) string {
 	}
 }
 
+// forgeries that re-use the fields of a genuine message g of pool p (presented right after g on the same
+// authenticator): each changes one thing and keeps the rest, in particular the genuine cold signature.  All
+// must be rejected - the cold signature binds kes vkey, issue number and kes period, the KES signature binds
+// the payload, the id binds the payload.
+var forgeries = []string{"forge-kes-vkey", "forge-kes-vkey-same-payload", "forge-oc-period", "forge-issue", "forge-issue-down",
+	"forge-coldsig", "forge-pool", "forge-payload-stale-kes", "forge-payload-stale-id"}
+
+func forge(r *vh.Rng, kind string, g *jmsg, other *poolKey) *jmsg {
+	f := *g
+	f.Note = kind
+	f.LegacyID = ""
+	newPayload := func() {
+		f.Body = hexp(r.Bytes(1 + r.Intn(12)))
+		f.Expires = uint32(r.U64())
+	}
+	rekes := func() { // id and KES signature redone for the current payload / KES key; the op-cert is left alone
+		pe := encPayload(&f)
+		f.ID = hex.EncodeToString(h256(pe))
+		f.KesSig = hex.EncodeToString(kesSig(wrapBstr(pe), unhexp(f.KesVkey), f.KesP, 0x5a))
+	}
+	switch kind {
+	case "forge-kes-vkey": // the attacker's own KES key signs a new payload; genuine cold signature replayed
+		f.KesVkey = hexp(r.Bytes(32))
+		newPayload()
+		rekes()
+	case "forge-kes-vkey-same-payload":
+		f.KesVkey = hexp(r.Bytes(32))
+		rekes()
+	case "forge-oc-period":
+		f.OcKesP += uint64(1 + r.Intn(3))
+		newPayload()
+		rekes()
+	case "forge-issue": // a higher counter with the old signature (would also poison the cache)
+		f.Issue += uint64(1 + r.Intn(3))
+		newPayload()
+		rekes()
+	case "forge-issue-down":
+		if f.Issue > 0 {
+			f.Issue--
+		} else {
+			f.Issue = 1
+		}
+		rekes()
+	case "forge-coldsig":
+		f.ColdSig = flipBit(f.ColdSig, r)
+		newPayload()
+		rekes()
+	case "forge-pool": // the genuine certificate presented under another registered pool's cold key
+		f.Cold = hex.EncodeToString(other.pub)
+		newPayload()
+		rekes()
+	case "forge-payload-stale-kes": // new payload, id recomputed, KES signature of the genuine message
+		newPayload()
+		f.ID = hex.EncodeToString(h256(encPayload(&f)))
+	case "forge-payload-stale-id": // new payload KES-signed by the genuine key holder's key?  no: id left stale
+		id := f.ID
+		newPayload()
+		rekes()
+		f.ID = id
+	}
+	return &f
+}
+
 func genHist(r *vh.Rng, idx int) *hist {
 	h := &hist{Disabled: idx%23 == 22}
 	np := 2 + r.Intn(3)
@@ -777,6 +846,18 @@ func genHist(r *vh.Rng, idx int) *hist {
 				o.Slot = &s
 			}
 			add(o)
+			if r.Chance(1, 2) {
+				nf := 1 + r.Intn(3)
+				for q := 0; q < nf; q++ {
+					fo := jop{Kind: "verify", Msg: forge(r, vh.PickOne(r, forgeries), j, other), Via: pickVia(r), Slot: o.Slot}
+					add(fo)
+				}
+				if r.Chance(1, 3) { // the genuine certificate again, with a new payload: must still be accepted
+					j2 := validMsg(r, p, p.ctr)
+					j2.Note = "valid"
+					add(jop{Kind: "verify", Msg: j2, Via: pickVia(r)})
+				}
+			}
 		case x < 78: // single-field corruption
 			j := validMsg(r, p, p.ctr+uint64(r.Intn(2)))
 			corrupt(r, vh.PickOne(r, corruptions), p, other, j)
@@ -869,6 +950,26 @@ func corpus(r *vh.Rng) []*hist {
 		h.Ops = append(h.Ops, v(j))
 	}
 	out = append(out, h)
+	// forgeries after acceptance: two pools interleaved, every forgery after a genuine message, again after the
+	// genuine certificate was re-presented, after unregister / re-register, and after a cache removal
+	hf := &hist{Ops: []jop{{Kind: "register", Pool: p.id}, {Kind: "register", Pool: q.id}, {Kind: "verifier", V: 0}}}
+	round := func(pk, ot *poolKey, c uint64, vias []string) {
+		g := mk(pk, c, "valid")
+		hf.Ops = append(hf.Ops, v(g))
+		for k, f := range forgeries {
+			hf.Ops = append(hf.Ops, jop{Kind: "verify", Msg: forge(r, f, g, ot), Via: vias[k%len(vias)]})
+			if k%4 == 3 {
+				hf.Ops = append(hf.Ops, v(mk(pk, c, "valid")))
+			}
+		}
+	}
+	round(p, q, 7, []string{""})
+	round(q, p, 2, []string{"wire", "", "submit"})
+	hf.Ops = append(hf.Ops, jop{Kind: "unregister", Pool: p.id}, jop{Kind: "register", Pool: p.id})
+	round(p, q, 7, []string{"", "setid"})
+	hf.Ops = append(hf.Ops, jop{Kind: "remove", Pool: q.id})
+	round(q, p, 2, []string{""})
+	out = append(out, hf)
 	// the id check through every way a message object comes into being: a forged id must be rejected whether
 	// it sits in one field, in both, arrives over the wire (the decoder fills both fields) or via SetMessageID
 	hv := &hist{Ops: []jop{{Kind: "register", Pool: p.id}, {Kind: "verifier", V: 0}}}
@@ -924,7 +1025,7 @@ func doHist(c *vh.Ctx, cf *vh.CaseFile, h *hist, class string) {
 }
 
 func run(c *vh.Ctx) error {
-	c.Res.Rule = "histories of 7-25 API operations on a fresh authenticator: 2-4 pools with real Ed25519 cold keys; message objects built as struct literals, via MarshalCBOR + the real decoder, via the legacy wire shape, via a MsgSubmitMessage through NewMsgFromCbor, or via SetMessageID; fully valid messages with per-pool counter patterns (up, equal, down, jumps, boundaries) mixed with single-field corruptions and ids forged consistently in both id fields (28 kinds: id, payload, cold key/signature, opcert fields, KES key/signature, lengths, nil fields), nil messages, explicit slots, register/unregister (also of look-alike ids), cache removal, insecure-mode toggles and verifier replacement (4 verifier behaviours); distinct by the JSON of the history; non-trivial = at least one accepted and one rejected message"
+	c.Res.Rule = "histories of 7-25 API operations on a fresh authenticator: 2-4 pools with real Ed25519 cold keys; message objects built as struct literals, via MarshalCBOR + the real decoder, via the legacy wire shape, via a MsgSubmitMessage through NewMsgFromCbor, or via SetMessageID; fully valid messages with per-pool counter patterns (up, equal, down, jumps, boundaries) mixed with after half of the genuine messages 1-3 forgeries on the same authenticator that re-use the genuine message's fields with one replaced (other KES key that validly KES-signs, other op-cert period / issue number / cold signature, other pool's cold key, other payload); single-field corruptions and ids forged consistently in both id fields (28 kinds: id, payload, cold key/signature, opcert fields, KES key/signature, lengths, nil fields), nil messages, explicit slots, register/unregister (also of look-alike ids), cache removal, insecure-mode toggles and verifier replacement (4 verifier behaviours); distinct by the JSON of the history; non-trivial = at least one accepted and one rejected message"
 	c.Res.Modelled = []string{
 		"Blake2b-256, Ed25519 and the KES verifier are universally quantified Section variables in the theorems; in the correspondence the model receives their results as oracle tables computed by the harness (x/crypto blake2b, crypto/ed25519, the injected verifier's recorded calls) and must supply the same arguments itself",
 		"kesOpCertCache is read through reflection at the end of each history",
